@@ -1219,6 +1219,34 @@ async fn c16_e2e_case(seed: u64, scen: u64, joins_before_store: bool) -> CaseOut
     if !still_missing.is_empty() {
         out.violate("C16:live-peer-not-addressed-after-another-peer-left", desc(json!({"departed": gone, "peers_without_the_second_write": still_missing})));
     }
+    // ---- a remaining peer changes its address (same node id, new address, one delta carrying
+    // left=[id@old] and joined=[id@new]): replication must follow it to the new address
+    if !joins_before_store && missing.is_empty() {
+        if let Some(mover) = nodes.iter().find(|n| n.id != gone) {
+            let (mid, old_addr) = (mover.id, mover.addr);
+            let new_addr = scen_addr(16, scen, mid + 100);
+            let moved = start_node(mid, new_addr, "dc", Arc::new(MemStore::default()), Ctl::new(mid), repair, true, None).await;
+            install_policy(new_addr, &chaos);
+            membership.insert(mid, moved.member());
+            node1.snap_tx.send(membership.clone()).unwrap();
+            tokio::time::sleep(Duration::from_millis(1_500)).await;
+            chaos.lock().seen.clear();
+            let _ = h.put("ks", 3, b"after-move".to_vec(), Consistency::None).await;
+            tokio::time::sleep(Duration::from_millis(2_200)).await;
+            let addressed: BTreeSet<SocketAddr> = chaos.lock().seen.iter().map(|s| s.0).collect();
+            out.count("address_changes_followed", 1);
+            if !holds(&moved, "ks", 3, None, false).await {
+                out.violate(
+                    "C16:live-peer-not-addressed-after-it-changed-address",
+                    desc(json!({"peer": mid, "old_address": old_addr.to_string(), "new_address": new_addr.to_string(), "addressed": addressed.iter().map(|a| a.to_string()).collect::<Vec<_>>()})),
+                );
+            }
+            if addressed.contains(&old_addr) {
+                out.violate("C16:old-address-still-addressed-after-address-change", desc(json!({"peer": mid, "old_address": old_addr.to_string()})));
+            }
+            rv::unregister(new_addr);
+        }
+    }
     out.nontrivial = Some(hash_of(&(scen, joins_before_store, n, gone)));
     if !out.violations.is_empty() {
         out.replay = Some(json!({"mode": "e2e", "seed": seed, "scenario": scen, "joins_before_store": joins_before_store}));
@@ -1238,7 +1266,7 @@ pub fn c16_e2e(args: &Args) {
     let mut report = Report::new(
         args,
         "E2-cluster",
-        "end to end: 2..4 peers join node 1 one at a time, either after node 1's store extension subscribed (prompt subscriber) or BEFORE it was created (late subscriber); the repair poller is parked (interval 100 000 s) so only the task distributor can deliver. A Consistency::None put on node 1 must be in every live peer's storage after two batch windows; then one peer leaves the membership and, a batch window later, another None put must not be addressed to it (requests per destination counted by the transport policy) while the remaining peers still receive it. Non-trivial: every scenario; distinct = (scenario, mode, peers, departed).",
+        "end to end: 2..4 peers join node 1 one at a time, either after node 1's store extension subscribed (prompt subscriber) or BEFORE it was created (late subscriber); the repair poller is parked (interval 100 000 s) so only the task distributor can deliver. A Consistency::None put on node 1 must be in every live peer's storage after two batch windows; then one peer leaves the membership and, a batch window later, another None put must not be addressed to it (requests per destination counted by the transport policy) while the remaining peers still receive it; finally a remaining peer changes its address (same id, one delta with left=[id@old] joined=[id@new]) and a third put must arrive at the new address and not be sent to the old one. Non-trivial: every scenario; distinct = (scenario, mode, peers, departed).",
     );
     if let Some(path) = &args.replay {
         let r = read_replay(path);
@@ -1251,5 +1279,6 @@ pub fn c16_e2e(args: &Args) {
     run_cases(&mut report, n, args.threads, Duration::from_secs(args.pick(100, 1500)), |i| block_on_paused(c16_e2e_case(seed, i, i % 2 == 1)));
     report.floor("none_level_writes_followed", 200);
     report.floor("departures_followed", 200);
+    report.floor("address_changes_followed", 100);
     report.finish(args);
 }
